@@ -264,6 +264,12 @@ def _execute(spec, ses):
                 elif got.cls == "mutation":
                     return _done(_v("reimported_partition_mutated", sig0, got.detail, cut=ci), ses, counters, spec)
                 else:
+                    multi = any(len(W.op_srcs(by_id[i])) > 1 for i in (W.cone(recipe, [t]) - W.cone(recipe, [at])))
+                    if multi and not NO_GATE[0]:
+                        # a multi-input op in the tail has to align re-imported and original lineage by divisions; failures
+                        # of that alignment machinery (C02/C06-type, not claimed) are not attributed to the cut
+                        counters["gated_alignment_failures"] = counters.get("gated_alignment_failures", 0) + 1
+                        break
                     return _done(_v("cut_breaks_compute", sig0 + ":" + (exc_signature(got.exc) if got.exc else got.cls), "cut at member %d (%s): %s" % (at, by_id[at]["op"], got.detail), cut=ci), ses, counters, spec)
     # ---- re-persist after the external source changed: the second snapshot must show the new data
     if any(op["op"] == "from_map_epoch" for op in recipe["ops"]) and spec["cuts"]:
